@@ -31,6 +31,8 @@ type SemOpts struct {
 	Off map[string]bool
 	// Bias
 	ManyTypes bool
+	// PkgNameClash: file base names equal to packages the generated code imports
+	PkgNameClash bool
 }
 
 func (o SemOpts) off(f string) bool { return o.Off != nil && o.Off[f] }
@@ -83,6 +85,14 @@ func GenProgram(r *core.Rand, o SemOpts) *Program {
 	for i := 0; i < nf; i++ {
 		d := dirs[r.Intn(len(dirs))]
 		base := g.name("m")
+		if o.PkgNameClash && r.Chance(1, 3) {
+			base = []string{"fmt", "wire", "stream", "errors", "strings", "bytes", "base64", "math", "strconv", "zapcore", "multierr", "thriftreflect", "ptr", "json", "binary"}[r.Intn(15)]
+			for _, f := range g.p.Files {
+				if f.ModuleName() == base {
+					base = g.name("m")
+				}
+			}
+		}
 		// the same base name may occur in several directories
 		if i > 0 && o.Dirs && r.Chance(1, 3) {
 			prev := g.p.Files[r.Intn(i)]
